@@ -36,7 +36,7 @@ func vPickScenario() (vScenario, vOp) {
 	i -= len(readme)
 	if i < len(abstract) {
 		verifLog("op: " + abstract[i].q)
-		return vScenario{[]string{vSC1, vSC2}, vAbstractWorld(), abstract, vAbstractHint}, abstract[i]
+		return vScenario{[]string{vSC1, vSC2, vSC3}, vAbstractWorld(), abstract, vAbstractHint}, abstract[i]
 	}
 	i -= len(abstract)
 	verifLog("op: " + twins[i].q)
@@ -161,7 +161,22 @@ func VerifSubRequests() {
 		vars = op.vars()
 	}
 	f := vNewFed(sc.w, nil, sc.sdls...)
-	f.vPost(op.q, vars, op.opName)
+	_, ans := f.vPost(op.q, vars, op.opName)
+	// a field that is dropped for one of several entities (or implementations) shows in the answer
+	if op.known == "" {
+		if exp, valid := f.vReference(op.q, vars, op.opName); valid {
+			if data, ok := ans["data"].(map[string]interface{}); ok && ans["errors"] == nil {
+				for k := range exp {
+					if len(k) > 2 && k[:2] == "__" && k != "__typename" {
+						delete(exp, k)
+						delete(data, k)
+					}
+				}
+				vPrune(data)
+				vAssertSame("", data, exp)
+			}
+		}
+	}
 
 	doc, derr := gqlparser.LoadQuery(f.gw.schema, op.q)
 	verifAssert(derr == nil, "scenario operation is valid against the gateway schema")
@@ -223,7 +238,7 @@ func VerifSubRequests() {
 		vSelected(sop.SelectionSet, sel)
 		for _, p := range vSortedPairs(sel) {
 			covered[p] = true
-			if !clientAll[p] {
+			if !clientAll[p] && !vSelectedThroughAbstract(f.gw.schema, clientAll, p) {
 				verifAssert(p.field == "id" || p.field == "__typename" || (p.typ == "Query" && p.field == "node"),
 					"sub-requests add nothing but id/__typename helpers (and the node entry point)")
 			}
@@ -247,6 +262,9 @@ func VerifSubRequests() {
 				continue
 			}
 		}
+		if !covered[p] && vCoveredPerImplementation(f.gw.schema, covered, p) {
+			continue // a field selected on an interface is requested per implementation
+		}
 		verifAssert(covered[p], "every client-selected field is requested from a service that declares it: "+p.typ+"."+p.field)
 	}
 	_, _ = clientCount, subCount
@@ -267,6 +285,32 @@ func VerifSubRequests() {
 		}
 	}
 	verifReach("operation translated")
+}
+
+// vSelectedThroughAbstract: the sub-request selects T.f where the client selected I.f on an interface I that T implements
+func vSelectedThroughAbstract(sc *ast.Schema, clientAll map[vPair]bool, p vPair) bool {
+	for q := range clientAll {
+		if q.field == p.field && q.typ != p.typ && vTypeMatches(sc, q.typ, p.typ) {
+			return true
+		}
+	}
+	return false
+}
+
+// vCoveredPerImplementation: I.f counts as requested when every implementation of I that some sub-request is about has f requested
+func vCoveredPerImplementation(sc *ast.Schema, covered map[vPair]bool, p vPair) bool {
+	def := sc.Types[p.typ]
+	if def == nil || (def.Kind != ast.Interface && def.Kind != ast.Union) {
+		return false
+	}
+	n := 0
+	for _, pt := range sc.PossibleTypes[p.typ] {
+		if !covered[vPair{pt.Name, p.field}] {
+			return false
+		}
+		n++
+	}
+	return n > 0
 }
 
 func vPlannedStepsValid(f *vFed, steps []*planner.QueryPlanStep, clientOp ast.Operation) {
